@@ -285,15 +285,20 @@ package shimagent
 //@   ensures [in-memory-certificates-stay-listed] (!old(s.locked) && ret(filter, f0, 2) == nil) ==>
 //@     forall(h#bytes, h in dom(s.certs), exists(i, 0 <= i && i < len(result0), akBlob(result0[i]) == blobid(asKey(s.certs[h]))))
 //@   loop 1:
-//@     invariant wheld(s) && inv(s) && !old(s.locked) && calls(filter) == f0 + 1 && arg(filter, f0, 0) == s && ret(filter, f0, 2) == nil && err == nil &&
-//@       certsInMemory == s.certs && keysInAgent == ret(filter, f0, 1) && cacheOff(s) && (keys == nil || fresh(arr(keys)))
+//@     invariant wheld(s) && inv(s) && !old(s.locked)
+//@     invariant calls(filter) == f0 + 1 && arg(filter, f0, 0) == s && ret(filter, f0, 2) == nil && err == nil
+//@     invariant certsInMemory == s.certs && keysInAgent == ret(filter, f0, 1)
+//@     invariant cacheOff(s) && (keys == nil || fresh(arr(keys)))
 //@     invariant certsNonNil(s)
 //@     invariant forall(j, 0 <= j && j < len(keysInAgent), keysInAgent[j] != nil && akBlob(keysInAgent[j]) == blobid(asKey(keysInAgent[j])))
 //@     invariant forall(i, 0 <= i && i < len(keys), keys[i] != nil && exists(h#bytes, h in dom(s.certs), akBlob(keys[i]) == blobid(asKey(s.certs[h]))))
 //@     invariant forall(h#bytes, visited(h), exists(i, 0 <= i && i < len(keys), akBlob(keys[i]) == blobid(asKey(s.certs[h]))))
 //@   loop 2:
-//@     invariant wheld(s) && inv(s) && !old(s.locked) && calls(filter) == f0 + 1 && arg(filter, f0, 0) == s && ret(filter, f0, 2) == nil && err == nil &&
-//@       keysInAgent == ret(filter, f0, 1) && cacheOff(s) && (keys == nil || fresh(arr(keys))) && mapdom(s.certs) == entry(mapdom(s.certs)) && mapval(s.certs) == entry(mapval(s.certs))
+//@     invariant wheld(s) && inv(s) && !old(s.locked)
+//@     invariant calls(filter) == f0 + 1 && arg(filter, f0, 0) == s && ret(filter, f0, 2) == nil && err == nil
+//@     invariant keysInAgent == ret(filter, f0, 1)
+//@     invariant cacheOff(s) && (keys == nil || fresh(arr(keys)))
+//@     invariant mapdom(s.certs) == entry(mapdom(s.certs)) && mapval(s.certs) == entry(mapval(s.certs))
 //@     invariant certsNonNil(s)
 //@     invariant forall(j, 0 <= j && j < len(keysInAgent), keysInAgent[j] != nil && akBlob(keysInAgent[j]) == blobid(asKey(keysInAgent[j])))
 //@     invariant forall(i, 0 <= i && i < len(keys), keys[i] != nil &&
